@@ -553,6 +553,10 @@ func checkC11(c *Ctx) {
 					s, t, variantOf = s2, base.tree, base.text
 				}
 			}
+			if c.R.Chance(1, 8) {
+				// outer white space is removed before the rule is read: the padded text is the same rule, also after Reset
+				s = pick(c.R, []string{" ", "\n", " \n", "\t", "  ", "\r\n"}) + s + pick(c.R, []string{" ", "\n", " \n ", "\t", ""})
+			}
 			ev, err, esc := newEvaluator(s)
 			if esc != "" || err != nil || ev == nil {
 				return
@@ -565,8 +569,12 @@ func checkC11(c *Ctx) {
 			continue
 		}
 		steps := 5 + c.R.Intn(36)
+		if c.R.Chance(1, 25) {
+			steps = 130 + c.R.Intn(200) // a long life: behaviour gated on a number of calls shows only here
+			c.count("long_history")
+		}
 		for k := 0; k < steps; k++ {
-			if len(pool) < 6 && c.R.Chance(1, 6) {
+			if len(pool) < 6 && c.R.Chance(1, 6) && (steps < 100 || len(pool) < 2) {
 				mk()
 			}
 			sl := pick(c.R, pool)
@@ -792,6 +800,7 @@ type concTrial struct {
 	Calls      int   `json:"calls"`
 	Procs      int   `json:"gomaxprocs"`
 	SameRule   bool  `json:"same_rule"`
+	LongRule   bool  `json:"long_rule"`
 }
 
 func checkC12(c *Ctx) {
@@ -810,7 +819,7 @@ func checkC12(c *Ctx) {
 		return
 	}
 	for i := 0; i < trials && !c.full(); i++ {
-		tr := concTrial{Seed: int64(c.R.U64() >> 1), Goroutines: 8 + c.R.Intn(41), Calls: 30 + c.R.Intn(171), Procs: pick(c.R, []int{1, 2, 4, 16}), SameRule: c.R.Chance(1, 3)}
+		tr := concTrial{Seed: int64(c.R.U64() >> 1), Goroutines: 8 + c.R.Intn(41), Calls: 30 + c.R.Intn(171), Procs: pick(c.R, []int{1, 2, 4, 16}), SameRule: c.R.Chance(1, 3), LongRule: c.R.Chance(1, 2)}
 		b, _ := json.Marshal(tr)
 		cctx, cancel := context.WithTimeout(context.Background(), 180*time.Second)
 		cmd := exec.CommandContext(cctx, race, "-child", "conc")
@@ -883,7 +892,27 @@ func childConc() {
 		rulesT = append(rulesT, s)
 	}
 	jobs := make([][]*job, tr.Goroutines)
+	longText := ""
+	var longObj map[string]interface{}
+	if tr.LongRule {
+		// one long rule text (about 15 KB: its first parse takes milliseconds) that every goroutine parses for itself as
+		// its very first call, all released together - shared work on a rule text must not be observable
+		var sb strings.Builder
+		n := 900 + r.Intn(600)
+		hit := r.Intn(n)
+		for i := 0; i < n; i++ {
+			if i > 0 {
+				sb.WriteString(" or ")
+			}
+			fmt.Fprintf(&sb, "k%d eq %d", i%7, i)
+		}
+		longText = sb.String()
+		longObj = map[string]interface{}{fmt.Sprintf("k%d", hit%7): hit}
+	}
 	for g := range jobs {
+		if longText != "" {
+			jobs[g] = append(jobs[g], &job{text: longText, obj: longObj, kind: g % 3})
+		}
 		for k := 0; k < tr.Calls; k++ {
 			i := r.Intn(nr)
 			o := noStringer(genObject(r, trees[i], ObjOpts{AbsentPct: 10, NilPct: 5, NullParent: 10, NonObjMid: 5}))
